@@ -188,6 +188,9 @@ def _check_case(case):
                     if not cand:
                         out.fail('R6:ele-error-not-itemised:%s' % e['code'], 'set #%d: %s pos %s ele %s:%s code %s not among %s'
                                  % (si, e['seg_id'], e['pos'], e['ele'], e['sub'], e['code'], have4[:6]))
+                    elif val is None and len(cand) == 1 and cand[0][5] not in (None, ''):
+                        out.fail('R6:value-echoed-for-error-without-value', 'set #%d: %s pos %s ele %s code %s carries no value, acknowledgement echoes %r'
+                                 % (si, e['seg_id'], e['pos'], e['ele'], e['code'], cand[0][5]))
                     elif val is not None and not [h for h in cand if h[5] == val] and not _has_delim(val):
                         out.fail('R6:offending-value', 'set #%d: %s pos %s ele %s code %s value %r, acknowledgement has %r'
                                  % (si, e['seg_id'], e['pos'], e['ele'], e['code'], val, [h[5] for h in cand]))
